@@ -1,58 +1,51 @@
     // theta/bit_pack.rs against the REFERENCE BIT STREAM of the compressed theta form (serVer 4, DESIGN.md Appendix A):
     // values of `w` bits each, written one after the other, most significant bit first; stream bit k lives in byte k/8 at bit 7 - k%8.
     //     stream bit (i*w + j) == bit (w-1-j) of value i            (0 <= j < w)
-    // COMPLETE proofs: every value array, every initial buffer content, every width of the stated range; the position (i, j) that is
-    // compared is either symbolic (one assertion covers every bit) or runs over all 8*w constant positions (block functions).  Loops have
-    // constant bounds and are fully unwound (unwinding assertions on): the widths of a range (<= 8, width constant in each iteration), the
-    // bit positions of a block (<= 63 per value), the 1..=7 tail values, the byte loop of pack_value/unpack_value (<= 8).
+    // COMPLETE proofs: every value array, every initial buffer content, every width of the stated range (the width is symbolic); the
+    // position (i, j) that is compared is symbolic as well, so one assertion covers every bit of the output.  Loops have constant bounds
+    // <= 8 and are fully unwound under #[kani::unwind(9)] (unwinding assertions on): the widths of a round-trip range, the 1..=7 tail
+    // values, the byte loop of pack_value/unpack_value.  (Ranges are narrow because Kani's reachability traces, not SAT, dominate the time.)
     // These are the contracts the VX unit theta_codec assumes for pack_bits_block / unpack_bits_block / BitPacker / BitUnpacker.
 
     fn vk_mask(w: u8) -> u64 { if w >= 64 { u64::MAX } else { (1u64 << w) - 1 } }
     fn vk_stream_bit(buf: &[u8], k: usize) -> u8 { (buf[k >> 3] >> (7 - (k & 7))) & 1 }
 
-    // pack_bits_block(v, bytes[..w], w): every bit of bytes[0..w] is (over)written with the reference stream of v & mask (high bits of v ignored).
-    // The width is a constant inside each call (the range loop below is unrolled), so CBMC sees one pack_bits_<w> at a time.
+    // pack_bits_block(v, bytes[..w], w): every bit of bytes[0..w] is (over)written with the reference stream of v & mask (high bits of v ignored)
     fn vk_pack_block_stream_one(w: u8) {
         let v: [u64; 8] = kani::any();
         let mut buf: [u8; 63] = kani::any();            // arbitrary previous content
         pack_bits_block(&v, &mut buf[..w as usize], w);
-        let mut ok = true;
-        let mut i = 0usize;
-        while i < 8 {
-            let mut j = 0u8;
-            while j < w {                               // constant positions: 8*w one-bit comparisons, one property
-                let k = i * (w as usize) + j as usize;
-                ok &= vk_stream_bit(&buf, k) == ((v[i] >> (w - 1 - j)) & 1) as u8;
-                j += 1;
-            }
-            i += 1;
-        }
-        assert!(ok);
+        let i: usize = kani::any(); kani::assume(i < 8);
+        let j: u8 = kani::any(); kani::assume(j < w);
+        let k = i * (w as usize) + j as usize;
+        assert!(vk_stream_bit(&buf, k) == ((v[i] >> (w - 1 - j)) & 1) as u8);
     }
-    fn vk_pack_block_stream(lo: u8, hi: u8) { let mut c = lo; while c <= hi { vk_pack_block_stream_one(c); c += 1; } }
+    // the width is symbolic, but each path runs the check with a constant width (one pack_bits_<w> per path; keeps Kani's traces short)
+    fn vk_pack_block_stream(lo: u8, hi: u8) {
+        let w: u8 = kani::any(); kani::assume(lo <= w && w <= hi);
+        let mut c = lo;
+        while c <= hi { if w == c { vk_pack_block_stream_one(c); } c += 1; }
+    }
 
     // unpack_bits_block(out, bytes[..w], w) on ARBITRARY bytes: out[i] < 2^w and bit (w-1-j) of out[i] is stream bit i*w + j
     fn vk_unpack_block_stream_one(w: u8) {
         let buf: [u8; 63] = kani::any();
         let mut out: [u64; 8] = kani::any();            // arbitrary previous content
         unpack_bits_block(&mut out, &buf[..w as usize], w);
-        let mut ok = true;
-        let mut i = 0usize;
-        while i < 8 {
-            let mut j = 0u8;
-            while j < w {
-                let k = i * (w as usize) + j as usize;
-                ok &= ((out[i] >> (w - 1 - j)) & 1) as u8 == vk_stream_bit(&buf, k);
-                j += 1;
-            }
-            ok &= out[i] & !vk_mask(w) == 0;
-            i += 1;
-        }
-        assert!(ok);
+        let i: usize = kani::any(); kani::assume(i < 8);
+        let j: u8 = kani::any(); kani::assume(j < w);
+        let k = i * (w as usize) + j as usize;
+        assert!(((out[i] >> (w - 1 - j)) & 1) as u8 == vk_stream_bit(&buf, k));
+        assert!(out[i] & !vk_mask(w) == 0);
     }
-    fn vk_unpack_block_stream(lo: u8, hi: u8) { let mut c = lo; while c <= hi { vk_unpack_block_stream_one(c); c += 1; } }
+    fn vk_unpack_block_stream(lo: u8, hi: u8) {
+        let w: u8 = kani::any(); kani::assume(lo <= w && w <= hi);
+        let mut c = lo;
+        while c <= hi { if w == c { vk_unpack_block_stream_one(c); } c += 1; }
+    }
 
-    // unpack_bits_block(pack_bits_block(v, w), w) == v for every v with v[i] < 2^w
+    // unpack_bits_block(pack_bits_block(v, w), w) == v for every v with v[i] < 2^w.  The width is symbolic, but each path runs
+    // vk_block_roundtrip_one with a constant width (one pack_bits_<w>/unpack_bits_<w> pair per path).
     fn vk_block_roundtrip_one(w: u8) {
         let mut v: [u64; 8] = kani::any();
         let m = vk_mask(w);
@@ -63,7 +56,11 @@
         unpack_bits_block(&mut out, &buf[..w as usize], w);
         assert!(out[0] == v[0] && out[1] == v[1] && out[2] == v[2] && out[3] == v[3] && out[4] == v[4] && out[5] == v[5] && out[6] == v[6] && out[7] == v[7]);
     }
-    fn vk_block_roundtrip(lo: u8, hi: u8) { let mut c = lo; while c <= hi { vk_block_roundtrip_one(c); c += 1; } }
+    fn vk_block_roundtrip(lo: u8, hi: u8) {
+        let w: u8 = kani::any(); kani::assume(lo <= w && w <= hi);
+        let mut c = lo;
+        while c <= hi { if w == c { vk_block_roundtrip_one(c); } c += 1; }
+    }
 
     // the tail: n in 1..=7 values through a fresh BitPacker into a buffer of ANY previous content and any sufficient length (serialize_v4: w zero bytes):
     // byte_index/byte_bit_used are the bit position n*w, byte_used() == ceil(n*w/8); the first n*w stream bits are the reference stream;
@@ -180,10 +177,10 @@
             $( #[kani::proof] #[kani::unwind($u)] fn $name() { $f($lo, $hi) } )*
         };
     }
-    vk_ranges!(vk_pack_block_stream, 65:
+    vk_ranges!(vk_pack_block_stream, 9:
         bp_pack_stream_w01_08 = 1..=8, bp_pack_stream_w09_16 = 9..=16, bp_pack_stream_w17_24 = 17..=24, bp_pack_stream_w25_32 = 25..=32,
         bp_pack_stream_w33_40 = 33..=40, bp_pack_stream_w41_48 = 41..=48, bp_pack_stream_w49_56 = 49..=56, bp_pack_stream_w57_63 = 57..=63);
-    vk_ranges!(vk_unpack_block_stream, 65:
+    vk_ranges!(vk_unpack_block_stream, 9:
         bp_unpack_stream_w01_08 = 1..=8, bp_unpack_stream_w09_16 = 9..=16, bp_unpack_stream_w17_24 = 17..=24, bp_unpack_stream_w25_32 = 25..=32,
         bp_unpack_stream_w33_40 = 33..=40, bp_unpack_stream_w41_48 = 41..=48, bp_unpack_stream_w49_56 = 49..=56, bp_unpack_stream_w57_63 = 57..=63);
     vk_ranges!(vk_block_roundtrip, 9:
